@@ -587,7 +587,16 @@ impl PoolGen {
             let other = obs.pools.values().find(|p| p.info.pool_identifier != pid)?;
             return Some(withdraw_op(&who, &other.info.pool_identifier, coin(amt.min(bal), lp)));
         }
-        Some(withdraw_op(&who, &pid, coin(amt, lp)))
+        let mut op = withdraw_op(&who, &pid, coin(amt, lp));
+        if self.rng.gen_range(0..15) == 0 {
+            // other coins riding along with the LP
+            if let Op::Pm { funds, .. } = &mut op {
+                let extra = w.cfg.denoms.choose(&mut self.rng).map(|(d, _)| d.clone()).unwrap_or_else(|| "uom".into());
+                funds.push(coin(self.rng.gen_range(1..1_000_000u128), extra));
+                funds.sort_by(|a, b| a.denom.cmp(&b.denom));
+            }
+        }
+        Some(op)
     }
 
     pub fn gen_create(&mut self, w: &World, obs: &Obs) -> Option<Op> {
